@@ -600,7 +600,12 @@ class BlockUploadStream(io.RawIOBase):
             self._ackseq = 0
 
     def _end_upload(self):
-        response = self.sdo_client.read_response()
+        try:
+            response = self.sdo_client.read_response()
+        except SdoCommunicationError:
+            self._error = True
+            self.sdo_client.abort(0x05040000)
+            raise
         res_command, self._server_crc = struct.unpack_from("<BH", response)
         if res_command & 0xE0 != RESPONSE_BLOCK_UPLOAD:
             self._error = True
@@ -666,6 +671,7 @@ class BlockDownloadStream(io.RawIOBase):
         self._last_bytes_sent = 0
         self._current_block = []
         self._retransmitting = False
+        self._error = False
         command = REQUEST_BLOCK_DOWNLOAD | INITIATE_BLOCK_TRANSFER
         if request_crc_support:
             command |= CRC_SUPPORTED
@@ -713,14 +719,19 @@ class BlockDownloadStream(io.RawIOBase):
         # Can send up to 7 bytes at a time
         # Make a copy, the caller's buffer may be gone when a block has to be retransmitted
         data = bytes(b[0:7])
-        if self.size is not None and self.pos + len(data) >= self.size:
-            # This is the last data to be transmitted based on expected size
-            self.send(data, end=True)
-        elif len(data) < 7:
-            # We can't send less than 7 bytes in the middle of a transmission
-            return None
-        else:
-            self.send(data)
+        try:
+            if self.size is not None and self.pos + len(data) >= self.size:
+                # This is the last data to be transmitted based on expected size
+                self.send(data, end=True)
+            elif len(data) < 7:
+                # We can't send less than 7 bytes in the middle of a transmission
+                return None
+            else:
+                self.send(data)
+        except SdoError:
+            # The transfer has failed, close() must not try to end it
+            self._error = True
+            raise
         return len(data)
 
     def send(self, b, end=False):
@@ -763,7 +774,11 @@ class BlockDownloadStream(io.RawIOBase):
 
     def _block_ack(self):
         logger.debug("Waiting for acknowledgement of last block...")
-        response = self.sdo_client.read_response()
+        try:
+            response = self.sdo_client.read_response()
+        except SdoCommunicationError:
+            self.sdo_client.abort(0x05040000)
+            raise
         res_command, ackseq, blksize = struct.unpack_from("BBB", response)
         if res_command & 0xE0 != RESPONSE_BLOCK_DOWNLOAD:
             self.sdo_client.abort(0x05040001)
@@ -811,6 +826,8 @@ class BlockDownloadStream(io.RawIOBase):
         if self.closed:
             return
         super(BlockDownloadStream, self).close()
+        if self._error:
+            return
         if not self._done:
             logger.error("Block transfer was not finished")
         command = REQUEST_BLOCK_DOWNLOAD | END_BLOCK_TRANSFER
